@@ -1,5 +1,6 @@
 import Xo.Props.C11
 import Xo.Lemmas.Path
+import Xo.Lemmas.RefGraphOps
 /-! C10 — assigning one element changes that element and nothing else (property theorems only).
 Byte level, for every memory and every slot address: the assignment of a scalar or of a fitting string rewrites exactly the
 slot's bytes; combined with read locality (`C01_read_local`: a part's value depends only on the bytes of its own extent) every
@@ -107,6 +108,22 @@ theorem C10_set_leaf_again (t : Ty) (v : Val) (hw : t.WF) (hc : Conf t v)
     · simp [hin]
     · simp only [hin, if_false]
       exact hm i h1 h2
+
+/-- **whole-node assignment with references** (node model `Xo/Model/RefGraph.lean`, component `rg`): `h._update(t)` - what assigning
+a node to a nested node field does - for two live nodes of the same class in a state satisfying the reference-graph invariant (every
+reachable state, `C08_ref_history`) allocates nothing, changes no live region's place, makes every scalar of `h` read the value `t`'s
+has and every reference of `h` denote the SAME referent as `t`'s (or null like it), and the invariant holds again: no reference of any
+other node is disturbed -/
+theorem C10_node_update (u : RG.Univ) (hu : RG.UWF u) (s : RG.St) (hi : RG.Inv u s) (ha ta : Nat) :
+    RG.Inv u (RG.updObj u s ha ta) ∧ (RG.updObj u s ha ta).b.a = s.b.a ∧ (RG.updObj u s ha ta).live = s.live ∧
+    ∀ h t c cl, RG.findObj s ha = some h → RG.findObj s ta = some t → h.cls = some c → t.cls = some c → u[c]? = some cl →
+      ∀ k fk, cl[k]? = some fk →
+        (fk = .scal → fromLE (readAt (RG.updObj u s ha ta).b.mem (h.addr + RG.foff cl k) 8)
+            = fromLE (readAt s.b.mem (t.addr + RG.foff cl k) 8)) ∧
+        (fk ≠ .scal → deref (RG.updObj u s ha ta).b.mem (h.addr + RG.foff cl k) = deref s.b.mem (t.addr + RG.foff cl k) ∧
+          ∀ x, deref s.b.mem (t.addr + RG.foff cl k) = some x →
+            RG.refClass (RG.updObj u s ha ta) fk (h.addr + RG.foff cl k) = RG.refClass s fk (t.addr + RG.foff cl k)) :=
+  RG.updObj_spec hu hi ha ta
 
 /-- the hypotheses are satisfiable and the path machinery computes: in `{f0: UInt64, f1: UInt32[2], f2: String}` holding
 `{1, [5, 6], "ab"}` the item `f1[1]` is the 4 bytes at offset 20 (after the size word, f0 and f1[0]); deeper, in
